@@ -56,7 +56,7 @@ func (g *mgen) kv(label string, lo, hi int) map[string]any {
 }
 
 var byteSizes = []string{"64m", "1g", "512k", "2gb", "128mb", "1048576", "300kb", "4b"}
-var durations = []string{"10s", "1m30s", "500ms", "2h", "1m", "90s", "1h5m", "250us"}
+var durations = []string{"10s", "1m30s", "500ms", "2h", "1m", "90s", "1h5m", "250us", "0s"}
 
 // serviceAttrs lists the generated service attributes. Each returns its canonical value.
 type attrGen struct {
